@@ -75,6 +75,13 @@ def state_range(F, R, name, lo, hi, rule):
         r = fs.rng(x)
         n += 1
         if not (r.lo >= lo and r.hi <= hi):
+            # registers kept together in one Option cell: decide per presence case (see e_ready.presence_split)
+            from .e_ready import presence_split
+            r2 = presence_split(x, [c for c in conds if isinstance(c, tuple)], facts,
+                                lambda cs_: AllCases(FSign(cs_, int_lb_factory(H)).cases()), 'range', (lo, hi),
+                                is_oos=lambda pre_: bool(m.last_vg.oos_names(pre_)))
+            if r2 is not None and r2[0]:
+                continue
             ok = False
             detail = 'last() = %s has range %s under the state invariants, not within [%s, %s]' % (tstr(x)[:60], r, lo, hi)
     R.ob(rule, name, ok and n > 0, 'every value last() can return lies in [%s, %s] given the state invariants (%d cases)' % (lo, hi, n) if ok else detail, v.file)
